@@ -795,6 +795,10 @@ func c04Limits(o *out, r *rng, thorough bool) {
 	t.add(tnode{path: "/", kind: 'd', mtime: genMtime(r)})
 	t.add(tnode{path: "/big.iso", kind: 'f', size: 3 << 30, seed: 4294967295, mtime: genMtime(r)})
 	t.add(tnode{path: "/plain.bin", kind: 'f', size: 300000, seed: 5, mtime: genMtime(r)})
+	t.add(tnode{path: "/many", kind: 'd', mtime: genMtime(r)})
+	for i := 0; i < 200; i++ {
+		t.add(tnode{path: fmt.Sprintf("/many/f%03d.bin", i), kind: 'f', size: 1 + int64(i%3)*2048, seed: int64(i), mtime: genMtime(r)})
+	}
 	withTempRoot(func(root string) {
 		if err := t.materialize(root); err != nil {
 			o.notes = append(o.notes, "materialize: "+err.Error())
@@ -833,6 +837,49 @@ func c04Limits(o *out, r *rng, thorough bool) {
 			o.count("fd")
 			o.emit(fmt.Sprintf("c04 fd %d", lim), line, "", fmt.Sprintf("fd%d", lim))
 			srv.stop()
+		}
+		// an image of a tree with more files than the process may have descriptors must still be readable to its end
+		{
+			srv, err := startServer(root, "ulimit -n 64")
+			if err != nil {
+				o.emit("c04 fdviso 64", "proc=0 served=unknown note=server-did-not-start", "", "fdviso")
+			} else {
+				res := "served=short"
+				func() {
+					c, err := net.DialTimeout("tcp4", srv.addr(), time.Second)
+					if err != nil {
+						return
+					}
+					defer c.Close()
+					c.SetDeadline(time.Now().Add(30 * time.Second))
+					c.Write(creq{op: opOpenFile, path: "/***DVD***/many"}.bytes())
+					hdr := make([]byte, 16)
+					if _, err := io.ReadFull(c, hdr); err != nil {
+						return
+					}
+					size := int64(binary.BigEndian.Uint64(hdr))
+					if size <= 0 {
+						res = "served=open-failed"
+						return
+					}
+					c.Write(creq{op: opReadFile, a: uint64(size), b: 0}.bytes())
+					h := make([]byte, 4)
+					if _, err := io.ReadFull(c, h); err != nil {
+						return
+					}
+					n, _ := io.Copy(io.Discard, io.LimitReader(c, int64(binary.BigEndian.Uint32(h))))
+					if int64(binary.BigEndian.Uint32(h)) == size && n == size {
+						res = "served=full"
+					}
+				}()
+				proc := 0
+				if srv.alive() {
+					proc = 1
+				}
+				o.count("fdviso")
+				o.emit("c04 fdviso 64", fmt.Sprintf("proc=%d %s", proc, res), "", "fdviso")
+				srv.stop()
+			}
 		}
 		// memory: the length field of READ_FILE must not drive the server's memory use
 		srv, err := startServer(root, "")
